@@ -409,6 +409,18 @@ func c17PullRetry(c *fw.Ctx, i int, retry int) {
 			c.Violate("pull-progress/retry", fmt.Sprintf("pull_retry_num=%d: %d attempts seen, %d expected within %d ticks\n%s", retry, n, want, retry+4, e.trace()), nil)
 		}
 		// (more than want is reported by the monitor)
+		// the budget is spent; stop and start again: a new request has its own budget
+		e.apiStop()
+		time.Sleep(300 * time.Millisecond)
+		n0 := len(e.attempts())
+		a2 := e.apiStart(retry, -1)
+		if !a2.Ok {
+			c.Violate("pull-api/restart-refused", fmt.Sprintf("after stop_relay_pull a new start_relay_pull (pull_retry_num=%d) on an enabled, input-less stream with nothing in flight answered failure: %q\n%s", retry, a2.Desp, e.trace()), nil)
+		} else if !e.waitAttempts(n0+want, time.Duration(retry+2)*c17Tick+time.Second) {
+			c.Violate("pull-progress/retry-after-restart", fmt.Sprintf("after stop + start (pull_retry_num=%d) only %d new attempts were made, %d expected\n%s", retry, len(e.attempts())-n0, want, e.trace()), nil)
+		}
+		time.Sleep(1500 * time.Millisecond)
+		e.apiStop()
 	} else {
 		if !e.waitAttempts(4, 7*time.Second) {
 			c.Violate("pull-progress/retry", fmt.Sprintf("pull_retry_num=-1: only %d attempts in 7 s while the origin refused\n%s", len(e.attempts()), e.trace()), nil)
@@ -901,6 +913,68 @@ func c17Push(c *fw.Ctx, i int, ingest string, nTargets, refuseFirst, paramLen in
 	}
 }
 
+// c17PushFlap: the push target accepts TCP but never answers, so the push attempt stays in
+// flight while the publisher leaves and a new publisher of the same name arrives.
+func c17PushFlap(c *fw.Ctx, i int) {
+	target, err := ref.NewRtmpStub(func(n int) ref.StubBehaviour { return ref.StubBehaviour{Hang: true} })
+	if err != nil {
+		c.Inconclusive("target stub: %v", err)
+		return
+	}
+	defer target.Close()
+	e := c17Start(c, i, false, []string{target.Addr})
+	if e == nil {
+		return
+	}
+	defer e.stop()
+	e.desc = "push: target accepts and never answers; publisher leaves and a new one arrives while the attempt is in flight"
+	c.Describe("%s", e.desc)
+	c.Cell("push/flapping-publisher/hanging-target")
+	// a viewer keeps the group alive between the publishers
+	x := e.sub()
+	defer e.unsub(x)
+	open := func() int {
+		n := 0
+		for _, s := range target.Snapshot() {
+			if !s.IsClosed() {
+				n++
+			}
+		}
+		return n
+	}
+	maxOpen := 0
+	watch := func(d time.Duration) {
+		t0 := time.Now()
+		for time.Since(t0) < d {
+			if o := open(); o > maxOpen {
+				maxOpen = o
+			}
+			time.Sleep(10 * time.Millisecond)
+		}
+	}
+	for round := 0; round < 3; round++ {
+		p, err := ref.StartRtmpPublisher(e.s.RtmpAddr(), "live", e.name, 3*time.Second)
+		if err != nil {
+			c.Inconclusive("publisher: %v", err)
+			return
+		}
+		e.logf("publisher %d accepted", round)
+		watch(400 * time.Millisecond)
+		p.Close()
+		e.logf("publisher %d left", round)
+		watch(150 * time.Millisecond)
+	}
+	watch(1500 * time.Millisecond)
+	c.Eval(1)
+	if maxOpen > 1 {
+		c.Violate("push/duplicate-session", fmt.Sprintf("the target had %d connections from lal open at once (one session per configured target)\n%s", maxOpen, e.trace()), nil)
+	}
+	// with no publisher left nothing may stay connected for long (push timeout 10 s)
+	if !srv.WaitFor(13*time.Second, func() bool { return open() == 0 }) {
+		c.Violate("push/outlives-publisher", fmt.Sprintf("%d connections to the push target are still open 13 s after the last publisher left\n%s", open(), e.trace()), nil)
+	}
+}
+
 func init() {
 	type sc struct {
 		name string
@@ -928,6 +1002,7 @@ func init() {
 		p := p
 		cat = append(cat, sc{"push", func(c *fw.Ctx, i int) { c17Push(c, i, p.ing, p.nt, p.ref, p.par) }})
 	}
+	cat = append(cat, sc{"push-flap", c17PushFlap})
 	nCat := len(cat)
 	fw.Register(&fw.Prop{
 		ID: "C17",
@@ -939,7 +1014,7 @@ func init() {
 		},
 		Batches:     func(string) int { return 16 },
 		CaseTimeout: func(string) time.Duration { return 4 * time.Minute },
-		Rule: "whole-server runs with a scriptable RTMP origin and scriptable push targets in the harness that log every accepted connection. Monitor (every run): each origin connection must be permitted — pulling enabled (static, or a start_relay_pull since the last stop/kick), no publisher or pull attached during the whole preceding tick, no earlier connection still unanswered, attempt count ≤ pull_retry_num+1 since the governing start/stop, and for auto-stop ≥ 0 a consumer present within window+1 tick (for a window > 0 a start call within the window counts as start-up grace). Scripted: retry budgets 0/1/3/−1 against a refusing origin (exact attempt counts, then attach, media, stop reply = attached id, pull_stop ≤ 3 s); auto-stop −1/0/2000 ms and static pull (attach ≤ 4 s after a consumer joins, stop within [window−1 tick, window+2 ticks+1 s] after it leaves, never for −1); stop / second start / publisher while the attempt is held in flight by the origin; kick of an attached API and static pull. Seeded programs over {consumer join/leave, start(retry, auto-stop), stop, kick, publisher arrive/leave} with origin outcomes refuse / close after connect / die after n messages / serve, judged by the monitor. Push: RTMP and RTSP publishers × 1–3 targets × target refusing its first 0–3 connections × URL parameters of 0/10/300/5000/40000 bytes: one publish session per target within (refusals+2) ticks+2 s, never two at once, publish name byte-equal incl. parameters, media arrives, sessions closed ≤ 3 s after the publisher left and no connection afterwards. cell = scenario × parameters.",
+		Rule: "whole-server runs with a scriptable RTMP origin and scriptable push targets in the harness that log every accepted connection. Monitor (every run): each origin connection must be permitted — pulling enabled (static, or a start_relay_pull since the last stop/kick), no publisher or pull attached during the whole preceding tick, no earlier connection still unanswered, attempt count ≤ pull_retry_num+1 since the governing start/stop, and for auto-stop ≥ 0 a consumer present within window+1 tick (for a window > 0 a start call within the window counts as start-up grace). Scripted: retry budgets 0/1/3/−1 against a refusing origin (exact attempt counts; after the budget is spent stop + start must be accepted and get a fresh budget; for −1 attach, media, stop reply = attached id, pull_stop ≤ 3 s); auto-stop −1/0/2000 ms and static pull (attach ≤ 4 s after a consumer joins, stop within [window−1 tick, window+2 ticks+1 s] after it leaves, never for −1); stop / second start / publisher while the attempt is held in flight by the origin; kick of an attached API and static pull. Seeded programs over {consumer join/leave, start(retry, auto-stop), stop, kick, publisher arrive/leave} with origin outcomes refuse / close after connect / die after n messages / serve, judged by the monitor. Push: RTMP and RTSP publishers × 1–3 targets × target refusing its first 0–3 connections × URL parameters of 0/10/300/5000/40000 bytes: one publish session per target within (refusals+2) ticks+2 s, never two at once, publish name byte-equal incl. parameters, media arrives, sessions closed ≤ 3 s after the publisher left and no connection afterwards; a target that accepts and never answers while the publisher leaves and returns three times: never two connections at once, none left 13 s after the last publisher. cell = scenario × parameters.",
 		Assumptions: []string{"a start_relay_pull that lal answers with an error still counts as enabling (lal stores the request and starts later); the property text does not say otherwise", "time bands are one tick (1 s) + 0.3 s wide on each side; nothing is judged inside them", "RTSP pull origins are not driven (no RTSP stub server)"},
 		MinCells: 8,
 		Run: func(c *fw.Ctx, i int) {
